@@ -28,6 +28,7 @@ type HookDef struct {
 	Weight int      `json:"weight"`
 	Pols   []string `json:"pols"`
 	File   string   `json:"file"` // template file name (hooks are pre-ordered by kind, then by path)
+	Sp     bool     `json:"sp"`   // write the annotation lists with a blank after each comma ("a, b")
 }
 
 type ChartDef struct {
@@ -119,9 +120,13 @@ func hookTemplate(id string, h HookDef) string {
 	default:
 		sb.WriteString("apiVersion: v1\nkind: ConfigMap\n")
 	}
-	fmt.Fprintf(&sb, "metadata:\n  name: %s\n  annotations:\n    \"helm.sh/hook\": %s\n    \"helm.sh/hook-weight\": \"%d\"\n", id, strings.Join(h.Events, ","), h.Weight)
+	sep := ","
+	if h.Sp {
+		sep = ", "
+	}
+	fmt.Fprintf(&sb, "metadata:\n  name: %s\n  annotations:\n    \"helm.sh/hook\": %s\n    \"helm.sh/hook-weight\": \"%d\"\n", id, strings.Join(h.Events, sep), h.Weight)
 	if len(h.Pols) > 0 {
-		fmt.Fprintf(&sb, "    \"helm.sh/hook-delete-policy\": %s\n", strings.Join(h.Pols, ","))
+		fmt.Fprintf(&sb, "    \"helm.sh/hook-delete-policy\": %s\n", strings.Join(h.Pols, sep))
 	}
 	if h.Kind == "Job" {
 		sb.WriteString("spec:\n  template:\n    spec:\n      restartPolicy: Never\n      containers:\n      - name: c\n        image: busybox\n")
